@@ -54,6 +54,11 @@ def templates(tier):
                     ['nest', k, ['cat', [T(1), ['hard'], T(2), ['cat', [g(a, b), ['line'], g(c, d)]]]]],
                     ['grp', ['cat', [T(a), ['line'], ['nest', k, g(c, d)], ['soft'], T(b)]]],
                 ]
+                if s == 0:
+                    # a group followed by a more deeply indented line of its own (the smart strategy looks at it)
+                    for n2 in (3, 6, 9):
+                        docs.append(['cat', [g(a, b), ['nest', k or 2, ['cat', [['hard'], T(n2)]]]]])
+                        docs.append(['cat', [T(c), g(a, b), ['nest', k or 2, ['cat', [['hard'], T(n2), ['line'], T(d)]]]]])
                 for doc in docs:
                     for w in widths:
                         for f in (1.0, 0.6, 0.3):
